@@ -59,8 +59,15 @@ Ltac inv_step H :=
   inversion H; subst; clear H.
 
 (* ---------- A. the counters and the pending-reply table are functions of the program counters ---------- *)
+(* counted: between atomic.AddInt32(&queueLen, 1) and the deferred AddInt32(-1); inside: between resp.Store and the deferred
+   resp.Delete (the two pairs are separate instructions: the windows differ at both ends) *)
+Definition counted (k : call) : bool :=
+  match k_pc k with Counted | Reg | Dialing | Enq | Waiting | Done => true | _ => false end.
 Definition inside (k : call) : bool :=
-  match k_pc k with Reg | Dialing | Enq | Waiting | Done => true | _ => false end.
+  match k_pc k with Reg | Dialing | Enq | Waiting | Done | Uncounted => true | _ => false end.
+Definition in_doInvoke (k : call) : bool := counted k || inside k.
+(* counted on the queueLen of proxy p *)
+Definition counted_by (p : nat) (k : call) : bool := counted k && Nat.eqb p (k_px k).
 Definition invoked (k : call) : bool :=
   match k_pc k with Init | Returned => false | _ => true end.
 Fixpoint cnt (f : call -> bool) (l : list call) : Z :=
@@ -103,7 +110,7 @@ Proof.
 Qed.
 
 Record InvA (s : state) : Prop := {
-  a_q : queueLen s = cnt inside (calls s);
+  a_q : forall p, queueLen s p = cnt (counted_by p) (calls s);
   a_n : invokeNum s = cnt invoked (calls s);
   a_r : forall i, In i (resp s) <-> inside_at (calls s) i;
   a_nd : NoDup (resp s) }.
@@ -117,7 +124,7 @@ Qed.
 Lemma remove_nat_nodup : forall i l, NoDup l -> NoDup (remove_nat i l).
 Proof. intros. apply NoDup_filter. assumption. Qed.
 
-Ltac pcs := unfold inside, invoked, set_pc, set_wait, set_lock, set_out, set_full, set_enq, set_ret in *; cbn [k_pc] in *.
+Ltac pcs := unfold counted_by, counted, inside, in_doInvoke, invoked, set_pc, set_reg, set_wait, set_lock, set_out, set_full, set_enq, set_ret in *; cbn [k_pc] in *.
 
 Lemma InvA_init : InvA init.
 Proof.
@@ -127,11 +134,11 @@ Qed.
 
 (* a step that replaces call i by x where both are inside or both are not, and leaves the counters and the table alone *)
 Lemma InvA_same : forall s s' i k x,
-  InvA s -> nth_error (calls s) i = Some k -> inside x = inside k -> invoked x = invoked k ->
+  InvA s -> nth_error (calls s) i = Some k -> (forall p, counted_by p x = counted_by p k) -> inside x = inside k -> invoked x = invoked k ->
   calls s' = upd (calls s) i x -> queueLen s' = queueLen s -> invokeNum s' = invokeNum s -> resp s' = resp s -> InvA s'.
 Proof.
-  intros s s' i k x [Hq Hn Hr Hd] Hk Hi Hv Hc Hq' Hn' Hr'. split.
-  - rewrite Hq', Hc, (cnt_upd _ _ _ _ x Hk), Hi, Hq. lia.
+  intros s s' i k x [Hq Hn Hr Hd] Hk Hcn Hi Hv Hc Hq' Hn' Hr'. split.
+  - intros p. rewrite Hq', Hc, (cnt_upd _ _ _ _ x Hk), Hcn, Hq. lia.
   - rewrite Hn', Hc, (cnt_upd _ _ _ _ x Hk), Hv, Hn. lia.
   - intros j. rewrite Hr', Hc, (inside_at_upd_same _ _ _ _ Hk Hi). apply Hr.
   - rewrite Hr'. exact Hd.
@@ -140,21 +147,21 @@ Qed.
 (* a step that does not touch the calls, the counters or the table *)
 Lemma InvA_frame : forall s s', InvA s -> calls s' = calls s -> queueLen s' = queueLen s -> invokeNum s' = invokeNum s ->
   resp s' = resp s -> InvA s'.
-Proof. intros s s' [Hq Hn Hr Hd] Hc Hq' Hn' Hr'. split; rewrite ?Hq', ?Hn', ?Hr', ?Hc; auto. Qed.
+Proof. intros s s' [Hq Hn Hr Hd] Hc Hq' Hn' Hr'. split; try intros p; rewrite ?Hq', ?Hn', ?Hr', ?Hc; auto. Qed.
 
 Lemma InvA_step : forall c s l s', InvA s -> step c s l = Some s' -> InvA s'.
 Proof.
   intros c s l s' HA H. destruct l; inv_step H.
   - (* Tick *) eapply InvA_frame; eauto.
   - (* Start *) destruct HA as [Hq Hn Hr Hd]. split; cbn [calls queueLen invokeNum resp with_calls].
-    + rewrite cnt_app. cbn. lia.
+    + intros p. specialize (Hq p). rewrite cnt_app. cbn. lia.
     + rewrite cnt_app. cbn. lia.
     + intros j. rewrite Hr. unfold inside_at. split; intros [k [Hk Hi]].
       * exists k. split; [|exact Hi]. rewrite nth_error_app1; [exact Hk|]. apply nth_error_Some. congruence.
       * apply nth_app_inv in Hk. destruct Hk as [Hk|[_ ->]]; [eauto|]. cbn in Hi. discriminate.
     + exact Hd.
   - (* LPre *) destruct HA as [Hq Hn Hr Hd]. split; cbn [calls queueLen invokeNum resp].
-    + rewrite (cnt_upd _ _ _ _ _ Heqo). pcs. rewrite Heqp. lia.
+    + intros p. specialize (Hq p). try unfold fset. rewrite (cnt_upd _ _ _ _ _ Heqo). pcs. cbn [k_px] in *. rewrite Heqp. cbn [andb]. destruct (Nat.eqb p (k_px c0)) eqn:Ep; [apply Nat.eqb_eq in Ep; subst p|]; cbn [andb]; lia.
     + rewrite (cnt_upd _ _ _ _ _ Heqo). pcs. rewrite Heqp. lia.
     + intros j. rewrite (inside_at_upd_same _ _ _ _ Heqo); [apply Hr|]. pcs. rewrite Heqp. reflexivity.
     + exact Hd.
@@ -162,19 +169,19 @@ Proof.
     assert (Hni : ~ In i (resp s)).
     { rewrite Hr. intros [k' [Hk' Hi]]. rewrite Heqo in Hk'. inversion Hk'; subst. unfold inside in Hi. rewrite Heqp in Hi. discriminate. }
     split; cbn [calls queueLen invokeNum resp].
-    + rewrite (cnt_upd _ _ _ _ _ Heqo). pcs. rewrite Heqp. lia.
+    + intros p. specialize (Hq p). try unfold fset. rewrite (cnt_upd _ _ _ _ _ Heqo). pcs. cbn [k_px] in *. rewrite Heqp. cbn [andb]. destruct (Nat.eqb p (k_px c0)) eqn:Ep; [apply Nat.eqb_eq in Ep; subst p|]; cbn [andb]; lia.
     + rewrite (cnt_upd _ _ _ _ _ Heqo). pcs. rewrite Heqp. lia.
     + intros j. cbn [In]. unfold inside_at. split.
       * intros [<-|Hj].
-        -- exists (set_pc c0 Reg). split; [eapply nth_upd_eq; eauto|reflexivity].
+        -- exists (set_reg c0 (rels (tr s))). split; [eapply nth_upd_eq; eauto|reflexivity].
         -- apply Hr in Hj. destruct Hj as [k' [Hk' Hi]]. exists k'. split; [|exact Hi].
            rewrite nth_upd_neq; [exact Hk'|]. intros ->. apply Hni. apply Hr. exists k'. auto.
       * intros [k' [Hk' Hi]]. destruct (nth_upd_inv _ _ _ _ _ _ _ Heqo Hk') as [[-> _]|[Hne Hk'']]; [left; reflexivity|].
         right. apply Hr. exists k'. auto.
     + constructor; assumption.
   - (* LQueueFull *) eapply (InvA_same s _ i c0 (set_full c0)); eauto; pcs; rewrite Heqp; reflexivity.
-  - (* LLock, connection open *) eapply (InvA_same s _ i c0 (set_lock c0 Enq (now s) false)); eauto; pcs; rewrite Heqp; reflexivity.
-  - (* LLock, dial *) eapply (InvA_same s _ i c0 (set_lock c0 Dialing (now s) true)); eauto; pcs; rewrite Heqp; reflexivity.
+  - (* LLock, connection open *) eapply (InvA_same s _ i c0 (set_lock c0 Enq (now s) false (rels (tr s) - k_rel0 c0))); eauto; pcs; rewrite Heqp; reflexivity.
+  - (* LLock, dial *) eapply (InvA_same s _ i c0 (set_lock c0 Dialing (now s) true (rels (tr s) - k_rel0 c0))); eauto; pcs; rewrite Heqp; reflexivity.
   - (* LDialOk *) eapply (InvA_same s _ i c0 (set_wait c0 Enq (now s))); eauto; pcs; rewrite Heqp; reflexivity.
   - (* LDialFail *) eapply (InvA_same s _ i c0 (set_out c0 Error (k_e c0))); eauto; pcs; rewrite Heqp; reflexivity.
   - (* LDialTimeout *) eapply (InvA_same s _ i c0 (set_out c0 Error (k_e c0))); eauto; pcs; rewrite Heqp; reflexivity.
@@ -182,7 +189,7 @@ Proof.
   - (* LEnqTimeout *) eapply (InvA_same s _ i c0 (set_out c0 Error true)); eauto; pcs; rewrite Heqp; reflexivity.
   - (* LCtxFire *) eapply (InvA_same s _ i c0 (set_out c0 Timeout (k_e c0))); eauto; pcs; rewrite Heqp; reflexivity.
   - (* LClean *) destruct HA as [Hq Hn Hr Hd]. split; cbn [calls queueLen invokeNum resp].
-    + rewrite (cnt_upd _ _ _ _ _ Heqo). pcs. rewrite Heqp. lia.
+    + intros p. specialize (Hq p). try unfold fset. rewrite (cnt_upd _ _ _ _ _ Heqo). pcs. cbn [k_px] in *. rewrite Heqp. cbn [andb]. destruct (Nat.eqb p (k_px c0)) eqn:Ep; [apply Nat.eqb_eq in Ep; subst p|]; cbn [andb]; lia.
     + rewrite (cnt_upd _ _ _ _ _ Heqo). pcs. rewrite Heqp. lia.
     + intros j. rewrite remove_nat_in, Hr. unfold inside_at. split.
       * intros [[k' [Hk' Hi]] Hne]. exists k'. split; [|exact Hi]. rewrite nth_upd_neq; [exact Hk'|congruence].
@@ -191,7 +198,7 @@ Proof.
         -- split; [exists k'; auto|exact Hne].
     + apply remove_nat_nodup. exact Hd.
   - (* LPost *) destruct HA as [Hq Hn Hr Hd]. split; cbn [calls queueLen invokeNum resp].
-    + rewrite (cnt_upd _ _ _ _ _ Heqo). pcs. rewrite Heqp. lia.
+    + intros p. specialize (Hq p). try unfold fset. rewrite (cnt_upd _ _ _ _ _ Heqo). pcs. cbn [k_px] in *. rewrite Heqp. cbn [andb]. destruct (Nat.eqb p (k_px c0)) eqn:Ep; [apply Nat.eqb_eq in Ep; subst p|]; cbn [andb]; lia.
     + rewrite (cnt_upd _ _ _ _ _ Heqo). pcs. rewrite Heqp. lia.
     + intros j. rewrite (inside_at_upd_same _ _ _ _ Heqo); [apply Hr|]. pcs. rewrite Heqp. reflexivity.
     + exact Hd.
@@ -204,6 +211,19 @@ Proof.
   - (* LDeliver *) eapply (InvA_same s _ j c0 (set_out c0 (Reply (r_pay r0)) (k_e c0))); eauto; pcs; rewrite Heqp; reflexivity.
   - (* LGiveUp *) eapply InvA_frame; eauto.
   - (* LIdleClose *) eapply InvA_frame; eauto.
+  - (* LCancel *) eapply (InvA_same s _ i c0 (set_out c0 Cancelled (k_e c0))); eauto; pcs; rewrite Heqp; reflexivity.
+  - (* LFilterErr *) eapply (InvA_same s _ i c0 (set_full c0)); eauto; pcs; rewrite Heqp; reflexivity.
+  - (* LCount *) destruct HA as [Hq Hn Hr Hd]. split; cbn [calls queueLen invokeNum resp].
+    + intros p. specialize (Hq p). try unfold fset. rewrite (cnt_upd _ _ _ _ _ Heqo). pcs. cbn [k_px] in *. rewrite Heqp. cbn [andb]. destruct (Nat.eqb p (k_px c0)) eqn:Ep; [apply Nat.eqb_eq in Ep; subst p|]; cbn [andb]; lia.
+    + rewrite (cnt_upd _ _ _ _ _ Heqo). pcs. rewrite Heqp. lia.
+    + intros j. rewrite (inside_at_upd_same _ _ _ _ Heqo); [apply Hr|]. pcs. rewrite Heqp. reflexivity.
+    + exact Hd.
+  - (* LUncount *) destruct HA as [Hq Hn Hr Hd]. split; cbn [calls queueLen invokeNum resp].
+    + intros p. specialize (Hq p). try unfold fset. rewrite (cnt_upd _ _ _ _ _ Heqo). pcs. cbn [k_px] in *. rewrite Heqp. cbn [andb]. destruct (Nat.eqb p (k_px c0)) eqn:Ep; [apply Nat.eqb_eq in Ep; subst p|]; cbn [andb]; lia.
+    + rewrite (cnt_upd _ _ _ _ _ Heqo). pcs. rewrite Heqp. lia.
+    + intros j. rewrite (inside_at_upd_same _ _ _ _ Heqo); [apply Hr|]. pcs. rewrite Heqp. reflexivity.
+    + exact Hd.
+  - (* LCloseOld *) eapply InvA_frame; eauto.
 Qed.
 
 Theorem InvA_reach : forall c s, reach c s -> InvA s.
@@ -236,17 +256,17 @@ Definition B (c : cfg) (k : call) : N := N.max (k_dl k) (k_lockt k + dl_d c k + 
 Definition time_ok (c : cfg) (n : N) (k : call) : Prop :=
   k_start k <= n /\ k_start k <= k_dl k /\ k_start k <= k_lockt k /\
   match k_pc k with
-  | Init | Pre => n = k_start k /\ k_e k = false
+  | Init | Pre | Counted => n = k_start k /\ k_e k = false
   | Reg => k_e k = false
   | Dialing => k_d k = true /\ k_e k = false /\ k_t0 k = k_lockt k /\ k_lockt k <= n /\ n <= k_lockt k + dialT c
   | Enq => k_e k = false /\ k_lockt k <= k_t0 k /\ k_t0 k <= k_lockt k + dl_d c k /\ k_t0 k <= n /\ n <= k_t0 k + writeT c
-  | Waiting | Done | Cleaned => n <= B c k
+  | Waiting | Done | Uncounted | Cleaned => n <= B c k
   | Returned => k_ret k <= B c k /\ k_ret k <= n
   end.
 
 Definition InvT (c : cfg) (s : state) : Prop := all_calls (fun _ k => time_ok c (now s) k) (calls s).
 
-Ltac fields := cbn [k_start k_dl k_pc k_t0 k_lockt k_d k_e k_out k_ret] in *.
+Ltac fields := cbn [k_px k_ow k_start k_dl k_pc k_t0 k_lockt k_d k_e k_out k_ret k_rel0 k_w] in *.
 Ltac usepc := repeat match goal with H : k_pc _ = _ |- _ => rewrite H in *; clear H end.
 Ltac splitifs :=
   repeat match goal with
@@ -309,7 +329,7 @@ Proof.
       rewrite nth_error_app1; [exact Hk|]. apply nth_error_Some. congruence.
     + intros i k Hk Hd. apply nth_app_inv in Hk. destruct Hk as [Hk|[_ ->]]; [eauto|discriminate].
   - (* LLock, dial *) destruct HL as [H1 H2]. split.
-    + intros j Hj. inversion Hj; subst. exists (set_lock c0 Dialing (now s) true). split; [eapply nth_upd_eq; eauto|reflexivity].
+    + intros j Hj. inversion Hj; subst. exists (set_lock c0 Dialing (now s) true (rels (tr s) - k_rel0 c0)). split; [eapply nth_upd_eq; eauto|reflexivity].
     + intros j k' Hk' Hd. destruct (nth_upd_inv _ _ _ _ _ _ _ Heqo Hk') as [[-> _]|[_ Hk'']]; [reflexivity|].
       rewrite (H2 _ _ Hk'' Hd) in Heqo0. discriminate.
   - (* LDialOk *) destruct HL as [H1 H2]. split; [intros j Hj; discriminate|].
@@ -321,7 +341,13 @@ Proof.
   - (* LDialTimeout *) destruct HL as [H1 H2]. split; [intros j Hj; discriminate|].
     intros j k' Hk' Hd. destruct (nth_upd_inv _ _ _ _ _ _ _ Heqo Hk') as [[-> ->]|[Hne Hk'']]; [discriminate|].
     pose proof (H2 _ _ Heqo Heqp) as E1. pose proof (H2 _ _ Hk'' Hd) as E2. congruence.
+  - (* LConnDown: under connLock *)
+    destruct HL as [H1 H2]. split; [intros j Hj; discriminate|].
+    intros j k' Hk' Hd. pose proof (H2 _ _ Hk' Hd). congruence.
   - (* LIdleClose: taken and released within the step, possible only while nobody dials *)
+    destruct HL as [H1 H2]. split; [intros j Hj; discriminate|].
+    intros j k' Hk' Hd. pose proof (H2 _ _ Hk' Hd). congruence.
+  - (* LCloseOld *)
     destruct HL as [H1 H2]. split; [intros j Hj; discriminate|].
     intros j k' Hk' Hd. pose proof (H2 _ _ Hk' Hd). congruence.
 Qed.
@@ -390,9 +416,9 @@ Proof. induction l as [|h t IH]; intros [|i] x; cbn; auto. Qed.
 Definition notq (s : state) (i : nat) : Prop := ~ In i (sendq s) /\ ~ In i (wire s).
 Definition out_ok (s : state) (i : nat) (k : call) : Prop :=
   match k_pc k with
-  | Init | Pre | Reg | Dialing | Enq => k_out k = None /\ notq s i
+  | Init | Pre | Counted | Reg | Dialing | Enq => k_out k = None /\ notq s i
   | Waiting => k_out k = None
-  | Done | Cleaned => exists o, k_out k = Some o
+  | Done | Uncounted | Cleaned => exists o, k_out k = Some o
   | Returned => (exists o, k_out k = Some o) /\ (k_out k = Some Timeout -> k_dl k <= k_ret k)
   end
   /\ (forall p, k_out k = Some (Reply p) -> In (id_of i, p) (sent s))
@@ -474,6 +500,10 @@ Proof.
   - (* LDeliver *)
     pose proof (HR _ _ Heqo) as [Hin Hrf]. rewrite Heqr1 in Hrf. destruct Hrf as [Hc _]. apply call_of_id in Hc.
     osolve.
+  - (* LCancel *) osolve.
+  - (* LFilterErr *) osolve.
+  - (* LCount *) osolve.
+  - (* LUncount *) osolve.
 Qed.
 
 Theorem InvO_reach : forall c s, reach c s -> InvO s.
@@ -486,16 +516,16 @@ Lemma nil_of_no_in : forall (l : list nat), (forall j, ~ In j l) -> l = [].
 Proof. intros [|h t] H; [reflexivity|]. exfalso. apply (H h). left; reflexivity. Qed.
 
 Theorem restored_counts : forall c s, reach c s ->
-  queueLen s = cnt inside (calls s) /\ invokeNum s = cnt invoked (calls s) /\
+  (forall p, queueLen s p = cnt (counted_by p) (calls s)) /\ invokeNum s = cnt invoked (calls s) /\
   (forall i, In i (resp s) <-> inside_at (calls s) i) /\ NoDup (resp s).
 Proof. intros c s H. destruct (InvA_reach c s H). auto. Qed.
 
 Theorem restored_quiescent : forall c s, reach c s ->
   (forall i k, nth_error (calls s) i = Some k -> k_pc k = Init \/ k_pc k = Returned) ->
-  queueLen s = 0%Z /\ invokeNum s = 0%Z /\ resp s = [].
+  (forall p, queueLen s p = 0%Z) /\ invokeNum s = 0%Z /\ resp s = [].
 Proof.
   intros c s H Hq. destruct (InvA_reach c s H) as [Hql Hin Hr Hd]. repeat split.
-  - rewrite Hql. apply cnt_all_false. intros i k Hk. unfold inside. destruct (Hq _ _ Hk) as [-> | ->]; reflexivity.
+  - intros p. rewrite Hql. apply cnt_all_false. intros i k Hk. unfold counted_by, counted. destruct (Hq _ _ Hk) as [-> | ->]; reflexivity.
   - rewrite Hin. apply cnt_all_false. intros i k Hk. unfold invoked. destruct (Hq _ _ Hk) as [-> | ->]; reflexivity.
   - apply nil_of_no_in. intros j Hj. apply Hr in Hj. destruct Hj as [k [Hk Hi]].
     unfold inside in Hi. destruct (Hq _ _ Hk) as [Hp|Hp]; rewrite Hp in Hi; discriminate.
@@ -503,12 +533,15 @@ Qed.
 
 (* no call inside doInvoke: queueLen and the pending-reply table are empty, whatever the other calls do outside *)
 Theorem restored_no_call_inside : forall c s, reach c s ->
-  (forall i k, nth_error (calls s) i = Some k -> inside k = false) -> queueLen s = 0%Z /\ resp s = [].
+  (forall i k, nth_error (calls s) i = Some k -> in_doInvoke k = false) -> (forall p, queueLen s p = 0%Z) /\ resp s = [].
 Proof.
-  intros c s H Hq. destruct (InvA_reach c s H) as [Hql Hin Hr Hd]. split.
-  - rewrite Hql. apply cnt_all_false. exact Hq.
+  intros c s H Hq0. destruct (InvA_reach c s H) as [Hql Hin Hr Hd].
+  assert (Hq : forall i k, nth_error (calls s) i = Some k -> counted k = false /\ inside k = false).
+  { intros i k Hk. specialize (Hq0 i k Hk). unfold in_doInvoke in Hq0. apply orb_false_elim in Hq0. exact Hq0. }
+  split.
+  - intros p. rewrite Hql. apply cnt_all_false. intros i k Hk. unfold counted_by. destruct (Hq i k Hk) as [E _]. rewrite E. reflexivity.
   - apply nil_of_no_in. intros j Hj. apply Hr in Hj. destruct Hj as [k [Hk Hi]].
-    rewrite (Hq _ _ Hk) in Hi. discriminate.
+    destruct (Hq _ _ Hk) as [_ E]. rewrite E in Hi. discriminate.
 Qed.
 
 Lemma cnt_ext : forall f l1 l2, length l1 = length l2 ->
@@ -523,17 +556,22 @@ Qed.
 Theorem restored_per_call : forall c s1 s2 i k1 k2, reach c s1 -> reach c s2 ->
   length (calls s1) = length (calls s2) ->
   (forall j a b, j <> i -> nth_error (calls s1) j = Some a -> nth_error (calls s2) j = Some b -> k_pc a = k_pc b) ->
+  (forall j a b, nth_error (calls s1) j = Some a -> nth_error (calls s2) j = Some b -> k_px a = k_px b) ->
   nth_error (calls s1) i = Some k1 -> k_pc k1 = Init -> nth_error (calls s2) i = Some k2 -> k_pc k2 = Returned ->
-  queueLen s1 = queueLen s2 /\ invokeNum s1 = invokeNum s2 /\ (forall j, In j (resp s1) <-> In j (resp s2)).
+  (forall p, queueLen s1 p = queueLen s2 p) /\ invokeNum s1 = invokeNum s2 /\ (forall j, In j (resp s1) <-> In j (resp s2)).
 Proof.
-  intros c s1 s2 i k1 k2 H1 H2 Hl Hsame Hk1 Hp1 Hk2 Hp2.
+  intros c s1 s2 i k1 k2 H1 H2 Hl Hsame Hpx Hk1 Hp1 Hk2 Hp2.
   destruct (InvA_reach c s1 H1) as [Hq1 Hn1 Hr1 _]. destruct (InvA_reach c s2 H2) as [Hq2 Hn2 Hr2 _].
+  assert (Hcn : forall j a b, nth_error (calls s1) j = Some a -> nth_error (calls s2) j = Some b -> counted a = counted b).
+  { intros j a b Ha Hb. destruct (Nat.eq_dec j i) as [->|Hne].
+    - rewrite Hk1 in Ha. rewrite Hk2 in Hb. inversion Ha; inversion Hb; subst. unfold counted. rewrite Hp1, Hp2. auto.
+    - unfold counted. rewrite (Hsame _ _ _ Hne Ha Hb). auto. }
   assert (Hpc : forall j a b, nth_error (calls s1) j = Some a -> nth_error (calls s2) j = Some b -> inside a = inside b /\ invoked a = invoked b).
   { intros j a b Ha Hb. destruct (Nat.eq_dec j i) as [->|Hne].
     - rewrite Hk1 in Ha. rewrite Hk2 in Hb. inversion Ha; inversion Hb; subst. unfold inside, invoked. rewrite Hp1, Hp2. auto.
     - unfold inside, invoked. rewrite (Hsame _ _ _ Hne Ha Hb). auto. }
   repeat split.
-  - rewrite Hq1, Hq2. apply cnt_ext; [exact Hl|]. intros j a b Ha Hb. apply (Hpc j a b Ha Hb).
+  - intros p. rewrite Hq1, Hq2. apply cnt_ext; [exact Hl|]. intros j a b Ha Hb. unfold counted_by. rewrite (Hcn j a b Ha Hb), (Hpx j a b Ha Hb). reflexivity.
   - rewrite Hn1, Hn2. apply cnt_ext; [exact Hl|]. intros j a b Ha Hb. apply (Hpc j a b Ha Hb).
   - rewrite Hr1, Hr2. intros [a [Ha Hi]].
     assert (Hlt : (j < length (calls s2))%nat) by (rewrite <- Hl; apply nth_error_Some; congruence).
@@ -553,11 +591,12 @@ Theorem outcome_classes : forall c s i k, reach c s -> nth_error (calls s) i = S
     | Timeout => k_dl k <= k_ret k                         (* never before the deadline *)
     | Error => ~ In i (sendq s) /\ ~ In i (wire s)         (* the request never left *)
     | Sent => k_ow k = true /\ (In i (sendq s) \/ In i (wire s))   (* one-way: the request was queued *)
+    | Cancelled => True                                    (* the caller gave up while the call waited *)
     end.
 Proof.
   intros c s i k H Hk Hp. destruct (InvO_reach c s H) as [HO _]. specialize (HO _ _ Hk). unfold out_ok in HO. rewrite Hp in HO.
   destruct HO as [[[o Ho] Ht] [Hr [_ [He [Hs Hw]]]]]. exists o. split; [exact Ho|].
-  destruct o; [apply Hr; exact Ho|apply Ht; exact Ho|apply He; exact Ho|split; [apply Hw; exact Ho|apply Hs; exact Ho]].
+  destruct o; [apply Hr; exact Ho|apply Ht; exact Ho|apply He; exact Ho|split; [apply Hw; exact Ho|apply Hs; exact Ho]|exact I].
 Qed.
 
 (* ---- returns ---- *)
@@ -615,13 +654,13 @@ Fixpoint ticks (n : nat) : list label := match n with O => [] | S m => Tick :: t
 (* (a) two callers, connection establishment stalls: the second caller waits for connLock while the first one dials *)
 Definition stalled_cfg : cfg := mkcfg 40 60 10 100 100000 60000.
 Definition stalled_trace : list label :=
-  [Start 20 false; Start 20 false; LPre 0; LReg 0; LLock 0; LPre 1; LReg 1] ++ ticks 40 ++
-  [LDialTimeout 0; LClean 0; LPost 0; LLock 1] ++ ticks 40 ++ [LDialTimeout 1; LClean 1; LPost 1].
+  [Start 20 false 0%nat; Start 20 false 0%nat; LPre 0; LCount 0; LReg 0; LLock 0; LPre 1; LCount 1; LReg 1] ++ ticks 40 ++
+  [LDialTimeout 0; LUncount 0; LClean 0; LPost 0; LLock 1] ++ ticks 40 ++ [LDialTimeout 1; LUncount 1; LClean 1; LPost 1].
 (* (b) the peer accepts and never reads, send queue of length 1: the second caller waits WriteTimeout for room *)
 Definition fullq_cfg : cfg := mkcfg 10 60 10 1 100000 60000.
 Definition fullq_trace : list label :=
-  [Start 10 false; Start 10 false; LPre 0; LReg 0; LLock 0; LDialOk 0; LEnq 0; LPre 1; LReg 1; LLock 1] ++ ticks 10 ++
-  [LCtxFire 0; LClean 0; LPost 0] ++ ticks 50 ++ [LEnqTimeout 1; LClean 1; LPost 1].
+  [Start 10 false 0%nat; Start 10 false 0%nat; LPre 0; LCount 0; LReg 0; LLock 0; LDialOk 0; LEnq 0; LPre 1; LCount 1; LReg 1; LLock 1] ++ ticks 10 ++
+  [LCtxFire 0; LUncount 0; LClean 0; LPost 0] ++ ticks 50 ++ [LEnqTimeout 1; LUncount 1; LClean 1; LPost 1].
 
 Definition late_call (c : cfg) (ls : list label) (i : nat) : bool :=
   match run c init ls with
@@ -669,6 +708,13 @@ Qed.
 
 Theorem peer_packet_inert : forall c s id pay s', step c s (LPeerPkt id pay) = Some s' -> same_calls s s'.
 Proof. intros c s id pay s' H. inv_step H. unfold same_calls; cbn. repeat split; reflexivity. Qed.
+
+(* closing a connection - the current one or, by a goroutine of an earlier connection, one that is not current any more -
+   needs connLock free and leaves it free; a stale close changes nothing at all *)
+Theorem close_releases_lock : forall c s l s', l = LConnDown \/ l = LCloseOld -> step c s l = Some s' ->
+  lock s = None /\ lock s' = None /\ calls s' = calls s /\ (forall p, queueLen s' p = queueLen s p) /\ invokeNum s' = invokeNum s /\
+  resp s' = resp s /\ sendq s' = sendq s /\ (l = LCloseOld -> conn_open s' = conn_open s).
+Proof. intros c s l s' [-> | ->] H; inv_step H; cbn; repeat split; auto; discriminate. Qed.
 
 (* the sender goroutine's idle check closes the connection and nothing else: it needs connLock free and leaves it free,
    touches no call, counter, table entry or queue; the next call simply dials again *)
@@ -719,7 +765,7 @@ Proof. intros T. unfold lo. apply N.le_sub_l. Qed.
 
 (* ---- no time lock: from every state finitely many local steps lead to a state in which the clock can tick ---- *)
 Definition rank (k : call) : nat :=
-  match k_pc k with Init => 8 | Pre => 7 | Reg => 6 | Dialing => 5 | Enq => 4 | Waiting => 3 | Done => 2 | Cleaned => 1 | Returned => 0 end.
+  match k_pc k with Init => 10 | Pre => 9 | Counted => 8 | Reg => 7 | Dialing => 6 | Enq => 5 | Waiting => 4 | Done => 3 | Uncounted => 2 | Cleaned => 1 | Returned => 0 end.
 Definition rrank (x : rcv) : nat := match r_pc x with RNew => 2 | RFound _ => 1 | RDone => 0 end.
 Fixpoint total {A} (f : A -> nat) (l : list A) : nat := match l with [] => 0 | x :: t => f x + total f t end.
 Definition mu (s : state) : nat := total rank (calls s) + total rrank (rcvs s).
@@ -748,16 +794,18 @@ Proof.
     destruct (k_pc k) eqn:Hp; try discriminate.
     + exists (LPre i). eexists. cbn [step]. rewrite Hk, Hp. split; [discriminate|]. split; [reflexivity|]. unfold mu; cbn [calls rcvs now].
       specialize (Hm (set_pc k Pre)). cbn in Hm. split; [lia|reflexivity].
-    + destruct (qmax c <? queueLen s)%Z eqn:Hq.
+    + destruct (qmax c <? queueLen s (k_px k))%Z eqn:Hq.
       * exists (LQueueFull i). eexists. cbn [step]. rewrite Hk, Hp, Hq. split; [discriminate|]. split; [reflexivity|]. unfold mu, with_calls; cbn [calls rcvs now].
         specialize (Hm (set_full k)). cbn in Hm. split; [lia|reflexivity].
-      * exists (LReg i). eexists. cbn [step]. rewrite Hk, Hp, Hq. split; [discriminate|]. split; [reflexivity|]. unfold mu; cbn [calls rcvs now].
-        specialize (Hm (set_pc k Reg)). cbn in Hm. split; [lia|reflexivity].
+      * exists (LCount i). eexists. cbn [step]. rewrite Hk, Hp, Hq. split; [discriminate|]. split; [reflexivity|]. unfold mu; cbn [calls rcvs now].
+        specialize (Hm (set_pc k Counted)). cbn in Hm. split; [lia|reflexivity].
+    + exists (LReg i). eexists. cbn [step]. rewrite Hk, Hp. split; [discriminate|]. split; [reflexivity|]. unfold mu; cbn [calls rcvs now].
+      specialize (Hm (set_reg k (rels (tr s)))). cbn in Hm. split; [lia|reflexivity].
     + destruct (lock s) eqn:Hl; [discriminate|]. exists (LLock i). destruct (conn_open s) eqn:Ho.
       * eexists. cbn [step]. rewrite Hk, Hl, Hp, Ho. split; [discriminate|]. split; [reflexivity|]. unfold mu, with_calls; cbn [calls rcvs now].
-        specialize (Hm (set_lock k Enq (now s) false)). cbn in Hm. split; [lia|reflexivity].
+        specialize (Hm (set_lock k Enq (now s) false (rels (tr s) - k_rel0 k))). cbn in Hm. split; [lia|reflexivity].
       * eexists. cbn [step]. rewrite Hk, Hl, Hp, Ho. split; [discriminate|]. split; [reflexivity|]. unfold mu; cbn [calls rcvs now].
-        specialize (Hm (set_lock k Dialing (now s) true)). cbn in Hm. split; [lia|reflexivity].
+        specialize (Hm (set_lock k Dialing (now s) true (rels (tr s) - k_rel0 k))). cbn in Hm. split; [lia|reflexivity].
     + exists (LDialTimeout i). eexists. cbn [step]. rewrite Hk, Hp, Hc. split; [discriminate|]. split; [reflexivity|]. unfold mu; cbn [calls rcvs now].
       specialize (Hm (set_out k Error (k_e k))). cbn in Hm. split; [lia|reflexivity].
     + destruct (N.of_nat (length (sendq s)) <? qcap c) eqn:Hr.
@@ -770,6 +818,8 @@ Proof.
         specialize (Hm (set_out k Error true)). cbn in Hm. split; [lia|reflexivity].
     + exists (LCtxFire i). eexists. cbn [step]. rewrite Hk, Hp, Hc. split; [discriminate|]. split; [reflexivity|]. unfold mu, with_calls; cbn [calls rcvs now].
       specialize (Hm (set_out k Timeout (k_e k))). cbn in Hm. split; [lia|reflexivity].
+    + exists (LUncount i). eexists. cbn [step]. rewrite Hk, Hp. split; [discriminate|]. split; [reflexivity|]. unfold mu; cbn [calls rcvs now].
+      specialize (Hm (set_pc k Uncounted)). cbn in Hm. split; [lia|reflexivity].
     + exists (LClean i). eexists. cbn [step]. rewrite Hk, Hp. split; [discriminate|]. split; [reflexivity|]. unfold mu; cbn [calls rcvs now].
       specialize (Hm (set_pc k Cleaned)). cbn in Hm. split; [lia|reflexivity].
     + exists (LPost i). eexists. cbn [step]. rewrite Hk, Hp. split; [discriminate|]. split; [reflexivity|]. unfold mu; cbn [calls rcvs now].
@@ -803,23 +853,258 @@ Proof.
   - exists [], s. cbn. repeat split; auto. rewrite Hu. discriminate.
 Qed.
 
+(* ---- W. waiting for connLock: every release by a dialling call is counted; a call that waits has waited at most
+   (releases since it began to wait) * DialTimeout, plus the current holder's dial ---- *)
+Definition wait_ok (c : cfg) (s : state) (k : call) : Prop :=
+  match k_pc k with
+  | Reg => k_rel0 k <= rels (tr s) /\
+           match lock s with
+           | None => now s <= k_start k + (rels (tr s) - k_rel0 k) * dialT c
+           | Some j => forall kj, nth_error (calls s) j = Some kj -> k_lockt kj <= k_start k + (rels (tr s) - k_rel0 k) * dialT c
+           end
+  | _ => k_lockt k <= k_start k + k_w k * dialT c
+  end.
+Definition InvW (c : cfg) (s : state) : Prop := all_calls (fun _ k => wait_ok c s k) (calls s).
+
+Lemma InvW_init : forall c, InvW c init.
+Proof. intros c [|i] k H; discriminate. Qed.
+
+(* call i is replaced; lock, release count and clock stay; the replaced call keeps its lock time unless nobody holds the lock *)
+Lemma wait_frame : forall c s s' i k x, nth_error (calls s) i = Some k -> calls s' = upd (calls s) i x ->
+  lock s' = lock s -> rels (tr s') = rels (tr s) -> now s' = now s -> (k_lockt x = k_lockt k \/ lock s = None) ->
+  InvW c s -> wait_ok c s' x -> InvW c s'.
+Proof.
+  intros c s s' i k x Hk Hc Hl Hr Hn Hlt HW Hx. unfold InvW. rewrite Hc. apply (all_upd2 _ _ _ _ _ Hk); [|exact Hx].
+  intros j kj Hne Hj. specialize (HW j kj Hj). cbv beta in *. unfold wait_ok in *. rewrite Hl, Hr, Hn.
+  destruct (k_pc kj); try exact HW. destruct HW as [H0 HW]. split; [exact H0|].
+  destruct (lock s) as [h|] eqn:Eh; [|exact HW]. intros kh Hkh. rewrite Hc in Hkh.
+  destruct (nth_upd_inv _ _ _ _ _ _ _ Hk Hkh) as [[-> ->]|[_ Hkh']].
+  - destruct Hlt as [E|E]; [rewrite E; apply HW; exact Hk|discriminate].
+  - apply HW; exact Hkh'.
+Qed.
+
+(* nothing about the calls, the lock, the release count or the clock changes *)
+Lemma wait_same : forall c s s', calls s' = calls s -> lock s' = lock s -> rels (tr s') = rels (tr s) -> now s' = now s ->
+  InvW c s -> InvW c s'.
+Proof.
+  intros c s s' Hc Hl Hr Hn HW. unfold InvW. rewrite Hc. intros j kj Hj. specialize (HW j kj Hj). cbv beta in *.
+  unfold wait_ok in *. rewrite Hl, Hr, Hn, Hc. exact HW.
+Qed.
+
+Ltac wsolve := unfold wait_ok in *; pcs; fields; usepc; fields; splitifs; fields; try lia.
+
+Lemma InvW_step : forall c s l s', 0 < writeT c -> reach c s -> InvW c s -> step c s l = Some s' -> InvW c s'.
+Proof.
+  intros c s l s' Hw Hreach HW H.
+  pose proof (InvT_reach c s Hw Hreach) as HT. pose proof (InvL_reach c s Hreach) as [HL1 HL2].
+  destruct l; inv_step H.
+  - (* Tick *)
+    intros j kj Hj. pose proof (HW j kj Hj) as Hok. cbv beta in *. cbn [calls] in Hj. unfold wait_ok in *. cbn [lock tr now calls].
+    destruct (k_pc kj) eqn:Hp; try exact Hok. destruct Hok as [H0 Hok]. split; [exact H0|].
+    destruct (lock s) eqn:El; [exact Hok|]. exfalso.
+    apply orb_false_elim in Heqb. destruct Heqb as [Hu _].
+    pose proof (existsb_false_nth _ _ _ _ _ Hu Hj) as Hnu. unfold call_urgent in Hnu. rewrite Hp, El in Hnu. discriminate.
+  - (* Start *)
+    unfold InvW, with_calls. cbn [calls]. apply all_app.
+    + intros j kj Hj. pose proof (HW j kj Hj) as Hok. cbv beta in *. unfold wait_ok in *. cbn [lock tr now calls].
+      destruct (k_pc kj); try exact Hok. destruct Hok as [H0 Hok]. split; [exact H0|].
+      destruct (lock s) as [h|] eqn:El; [|exact Hok]. intros kh Hkh. apply nth_app_inv in Hkh. destruct Hkh as [Hkh|[Eh _]]; [apply Hok; exact Hkh|].
+      destruct (HL1 h eq_refl) as [kd [Hkd _]]. assert (h < length (calls s))%nat by (apply nth_error_Some; congruence). lia.
+    + cbv beta. unfold wait_ok. cbn. lia.
+  - (* LPre *) eapply (wait_frame c s _ i c0 _ Heqo); try reflexivity; [left; reflexivity|exact HW|]. pose proof (HW _ _ Heqo) as Hok. cbv beta in Hok. wsolve.
+  - (* LReg: the call begins to wait for connLock *)
+    eapply (wait_frame c s _ i c0 _ Heqo); try reflexivity; [left; reflexivity|exact HW|].
+    pose proof (HT _ _ Heqo) as Ht. cbv beta in Ht. unfold time_ok in Ht. rewrite Heqp in Ht. destruct Ht as [T1 [T2 [T3 [T4 T5]]]].
+    unfold wait_ok. cbn [set_reg k_pc k_rel0 k_start lock tr now]. split; [lia|].
+    destruct (lock s) as [h|] eqn:El; [|lia]. intros kh Hkh. cbn [calls] in Hkh.
+    destruct (Nat.eq_dec h i) as [->|Hne].
+    + exfalso. destruct (HL1 i eq_refl) as [kd [Hkd Hd]]. rewrite Heqo in Hkd. inversion Hkd; subst kd. congruence.
+    + rewrite nth_upd_neq in Hkh by congruence. destruct (HL1 h eq_refl) as [kd [Hkd Hd]]. rewrite Hkd in Hkh. inversion Hkh; subst kh.
+      pose proof (HT _ _ Hkd) as Th. cbv beta in Th. unfold time_ok in Th. rewrite Hd in Th. lia.
+  - (* LQueueFull *) eapply (wait_frame c s _ i c0 _ Heqo); try reflexivity; [left; reflexivity|exact HW|]. pose proof (HW _ _ Heqo) as Hok. cbv beta in Hok. wsolve.
+  - (* LLock, connection open *)
+    eapply (wait_frame c s _ i c0 _ Heqo); try reflexivity; [right; assumption|exact HW|].
+    pose proof (HW _ _ Heqo) as Hok. cbv beta in Hok. unfold wait_ok in *. rewrite Heqp, Heqo0 in Hok. cbn [set_lock k_pc k_lockt k_start k_w]. lia.
+  - (* LLock, dial: this call becomes the holder *)
+    unfold InvW. cbn [calls]. apply (all_upd2 _ _ _ _ _ Heqo).
+    + intros j kj Hne Hj. pose proof (HW j kj Hj) as Hok. cbv beta in *. unfold wait_ok in *. cbn [lock tr now calls].
+      destruct (k_pc kj); try exact Hok. rewrite Heqo0 in Hok. destruct Hok as [H0 Hok]. split; [exact H0|].
+      intros kh Hkh. rewrite (nth_upd_eq _ _ _ _ _ Heqo) in Hkh. inversion Hkh; subst kh. cbn [set_lock k_lockt]. exact Hok.
+    + cbv beta. pose proof (HW _ _ Heqo) as Hok. cbv beta in Hok. unfold wait_ok in *. rewrite Heqp, Heqo0 in Hok. cbn [set_lock k_pc k_lockt k_start k_w]. lia.
+  - (* LDialOk: a release *)
+    pose proof (HL2 _ _ Heqo Heqp) as El. pose proof (HT _ _ Heqo) as Th. cbv beta in Th. unfold time_ok in Th. rewrite Heqp in Th.
+    unfold InvW. cbn [calls]. apply (all_upd2 _ _ _ _ _ Heqo).
+    + intros j kj Hne Hj. pose proof (HW j kj Hj) as Hok. cbv beta in *. unfold wait_ok in *. cbn [lock tr now calls rels].
+      destruct (k_pc kj); try exact Hok. rewrite El in Hok. destruct Hok as [H0 Hok]. specialize (Hok _ Heqo). split; [lia|].
+      replace (rels (tr s) + 1 - k_rel0 kj) with (rels (tr s) - k_rel0 kj + 1) by lia. lia.
+    + cbv beta. pose proof (HW _ _ Heqo) as Hok. cbv beta in Hok. wsolve.
+  - (* LDialFail: a release *)
+    pose proof (HL2 _ _ Heqo Heqp) as El. pose proof (HT _ _ Heqo) as Th. cbv beta in Th. unfold time_ok in Th. rewrite Heqp in Th.
+    unfold InvW. cbn [calls]. apply (all_upd2 _ _ _ _ _ Heqo).
+    + intros j kj Hne Hj. pose proof (HW j kj Hj) as Hok. cbv beta in *. unfold wait_ok in *. cbn [lock tr now calls rels].
+      destruct (k_pc kj); try exact Hok. rewrite El in Hok. destruct Hok as [H0 Hok]. specialize (Hok _ Heqo). split; [lia|].
+      replace (rels (tr s) + 1 - k_rel0 kj) with (rels (tr s) - k_rel0 kj + 1) by lia. lia.
+    + cbv beta. pose proof (HW _ _ Heqo) as Hok. cbv beta in Hok. wsolve.
+  - (* LDialTimeout: a release *)
+    pose proof (HL2 _ _ Heqo Heqp) as El. pose proof (HT _ _ Heqo) as Th. cbv beta in Th. unfold time_ok in Th. rewrite Heqp in Th.
+    unfold InvW. cbn [calls]. apply (all_upd2 _ _ _ _ _ Heqo).
+    + intros j kj Hne Hj. pose proof (HW j kj Hj) as Hok. cbv beta in *. unfold wait_ok in *. cbn [lock tr now calls rels].
+      destruct (k_pc kj); try exact Hok. rewrite El in Hok. destruct Hok as [H0 Hok]. specialize (Hok _ Heqo). split; [lia|].
+      replace (rels (tr s) + 1 - k_rel0 kj) with (rels (tr s) - k_rel0 kj + 1) by lia. lia.
+    + cbv beta. pose proof (HW _ _ Heqo) as Hok. cbv beta in Hok. wsolve.
+  - (* LEnq *) eapply (wait_frame c s _ i c0 _ Heqo); try reflexivity; [left; unfold set_enq; destruct (k_ow c0); reflexivity|exact HW|]. pose proof (HW _ _ Heqo) as Hok. cbv beta in Hok. wsolve.
+  - (* LEnqTimeout *) eapply (wait_frame c s _ i c0 _ Heqo); try reflexivity; [left; reflexivity|exact HW|]. pose proof (HW _ _ Heqo) as Hok. cbv beta in Hok. wsolve.
+  - (* LCtxFire *) eapply (wait_frame c s _ i c0 _ Heqo); try reflexivity; [left; reflexivity|exact HW|]. pose proof (HW _ _ Heqo) as Hok. cbv beta in Hok. wsolve.
+  - (* LClean *) eapply (wait_frame c s _ i c0 _ Heqo); try reflexivity; [left; reflexivity|exact HW|]. pose proof (HW _ _ Heqo) as Hok. cbv beta in Hok. wsolve.
+  - (* LPost *) eapply (wait_frame c s _ i c0 _ Heqo); try reflexivity; [left; reflexivity|exact HW|]. pose proof (HW _ _ Heqo) as Hok. cbv beta in Hok. wsolve.
+  - (* LSendTake *) apply (wait_same c s); [reflexivity|reflexivity|reflexivity|reflexivity|exact HW].
+  - (* LConnDown *) apply (wait_same c s); [reflexivity|cbn [lock]; congruence|reflexivity|reflexivity|exact HW].
+  - (* LPeerPkt *) apply (wait_same c s); [reflexivity|reflexivity|reflexivity|reflexivity|exact HW].
+  - (* LLookup *) apply (wait_same c s); [reflexivity|reflexivity|reflexivity|reflexivity|exact HW].
+  - apply (wait_same c s); [reflexivity|reflexivity|reflexivity|reflexivity|exact HW].
+  - apply (wait_same c s); [reflexivity|reflexivity|reflexivity|reflexivity|exact HW].
+  - (* LDeliver *) eapply (wait_frame c s _ j c0 _ Heqo0); try reflexivity; [left; reflexivity|exact HW|]. pose proof (HW _ _ Heqo0) as Hok. cbv beta in Hok. wsolve.
+  - (* LGiveUp *) apply (wait_same c s); [reflexivity|reflexivity|reflexivity|reflexivity|exact HW].
+  - (* LIdleClose *) apply (wait_same c s); [reflexivity|cbn [lock]; congruence|reflexivity|reflexivity|exact HW].
+  - (* LCancel *) eapply (wait_frame c s _ i c0 _ Heqo); try reflexivity; [left; reflexivity|exact HW|]. pose proof (HW _ _ Heqo) as Hok. cbv beta in Hok. wsolve.
+  - (* LFilterErr *) eapply (wait_frame c s _ i c0 _ Heqo); try reflexivity; [left; reflexivity|exact HW|]. pose proof (HW _ _ Heqo) as Hok. cbv beta in Hok. wsolve.
+  - (* LCount *) eapply (wait_frame c s _ i c0 _ Heqo); try reflexivity; [left; reflexivity|exact HW|]. pose proof (HW _ _ Heqo) as Hok. cbv beta in Hok. wsolve.
+  - (* LUncount *) eapply (wait_frame c s _ i c0 _ Heqo); try reflexivity; [left; reflexivity|exact HW|]. pose proof (HW _ _ Heqo) as Hok. cbv beta in Hok. wsolve.
+  - (* LCloseOld *) apply (wait_same c s); [reflexivity|cbn [lock]; congruence|reflexivity|reflexivity|exact HW].
+Qed.
+
+Theorem InvW_reach : forall c s, 0 < writeT c -> reach c s -> InvW c s.
+Proof. intros c s Hw. induction 1; [apply InvW_init|eapply InvW_step; eauto]. Qed.
+
+(* the deadline clause with the wait for connLock made explicit: position in the dial queue *)
+Theorem returns_position : forall c s i k, 0 < writeT c -> reach c s -> nth_error (calls s) i = Some k -> k_pc k = Returned ->
+  k_ret k <= N.max (k_dl k) (k_start k + (k_w k + (if k_d k then 1 else 0)) * dialT c + (if k_e k then writeT c else 0)).
+Proof.
+  intros c s i k Hw H Hk Hp. pose proof (returns_partial c s i k Hw H Hk Hp) as Hb.
+  pose proof (InvW_reach c s Hw H _ _ Hk) as Hwk. cbv beta in Hwk. unfold wait_ok in Hwk. rewrite Hp in Hwk.
+  unfold B, dl_d, wr_e in Hb. destruct (k_d k), (k_e k); lia.
+Qed.
+
+(* the bound is attained: in the stalled-dial witness the second caller waited for one dial of the first and dialled itself *)
+Example position_bound_attained :
+  match run stalled_cfg init stalled_trace with
+  | Some s => match nth_error (calls s) 1 with
+              | Some k => k_w k = 1 /\ k_d k = true /\ k_e k = false /\ k_ret k = k_start k + (k_w k + 1) * dialT stalled_cfg
+              | None => False end
+  | None => False end.
+Proof. vm_compute. repeat split; reflexivity. Qed.
+
+(* ---- the resource ledger of a call: everything a call can hold, cleared whatever its outcome ---- *)
+Record ledger_clear (c : cfg) (s : state) (i : nat) : Prop := {
+  lc_table : ~ In i (resp s);                                        (* no entry in the pending-reply table *)
+  lc_counts : forall k, nth_error (calls s) i = Some k -> counted k = false /\ inside k = false /\ invoked k = false;
+                                                                      (* counted neither in queueLen nor in invokeNum *)
+  lc_lock : lock s <> Some i;                                        (* does not hold connLock *)
+  lc_queue : forall k, nth_error (calls s) i = Some k -> k_out k = Some Error -> ~ In i (sendq s) /\ ~ In i (wire s);
+  lc_timers : step c s (LCtxFire i) = None /\ step c s (LCancel i) = None /\ step c s (LEnqTimeout i) = None /\
+              step c s (LDialTimeout i) = None;                       (* none of its timers can act any more *)
+  lc_receivers : forall r x, nth_error (rcvs s) r = Some x -> r_pc x = RFound i ->
+                   now s <= r_t0 x + readT c /\ step c s (LDeliver r) = None
+                                (* a receiver still holding its reply channel is released within ReadTimeout and cannot deliver *) }.
+
+Theorem ledger_all_outcomes : forall c s i k, reach c s -> nth_error (calls s) i = Some k -> k_pc k = Returned ->
+  (exists o, k_out k = Some o) /\ (forall o, k_out k = Some o -> ledger_clear c s i).
+Proof.
+  intros c s i k H Hk Hp.
+  destruct (InvO_reach c s H) as [HO _]. pose proof (HO _ _ Hk) as Hok. unfold out_ok in Hok. rewrite Hp in Hok.
+  destruct Hok as [[[o Ho] _] [_ [_ [He _]]]]. split; [exists o; exact Ho|]. intros o' _.
+  destruct (InvA_reach c s H) as [_ _ Hr _]. destruct (InvL_reach c s H) as [HL1 _].
+  split.
+  - intros Hin. apply Hr in Hin. destruct Hin as [k' [Hk' Hi]]. rewrite Hk in Hk'. inversion Hk'; subst k'.
+    unfold inside in Hi. rewrite Hp in Hi. discriminate.
+  - intros k' Hk'. rewrite Hk in Hk'. inversion Hk'; subst k'. unfold counted, inside, invoked. rewrite Hp. auto.
+  - intros Hl. destruct (HL1 _ Hl) as [k' [Hk' Hd]]. rewrite Hk in Hk'. inversion Hk'; subst k'. congruence.
+  - intros k' Hk' Hoe. rewrite Hk in Hk'. inversion Hk'; subst k'. apply He. exact Hoe.
+  - cbn [step]. rewrite Hk, Hp. auto.
+  - intros r x Hx Hf. split.
+    + pose proof (InvR_reach c s H _ _ Hx) as [_ Hrf]. rewrite Hf in Hrf. tauto.
+    + cbn [step]. rewrite Hx, Hf, Hk, Hp. reflexivity.
+Qed.
+
+(* the owner of the counter: registration and cleanup of a call move the queueLen of the proxy the call was made on, and
+   no other proxy's; no other step moves any queueLen *)
+Theorem counter_owner : forall c s l s', step c s l = Some s' ->
+  forall p, queueLen s' p <> queueLen s p ->
+  exists i k, nth_error (calls s) i = Some k /\ k_px k = p /\
+    ((l = LCount i /\ queueLen s' p = (queueLen s p + 1)%Z) \/ (l = LUncount i /\ queueLen s' p = (queueLen s p - 1)%Z)).
+Proof.
+  intros c s l s' H p Hne. destruct l; inv_step H; unfold with_calls, with_rcvs in Hne; cbn [queueLen] in Hne; try congruence.
+  - exists i, c0. unfold fset in *. cbn [queueLen]. destruct (Nat.eqb p (k_px c0)) eqn:E; [|congruence].
+    apply Nat.eqb_eq in E. subst p. auto.
+  - exists i, c0. unfold fset in *. cbn [queueLen]. destruct (Nat.eqb p (k_px c0)) eqn:E; [|congruence].
+    apply Nat.eqb_eq in E. subst p. auto.
+Qed.
+
+(* two ServantProxy objects for one object, overlapping calls: each proxy's own counter is back to 0 *)
+Example two_proxies_overlap :
+  let '(s, _, ok) := canonical (mkscen (mkcfg 30 40 10 100 100000 60000) CAccept [mkact false (Some 4) false false] 4 1 (mktmo 20 None None) [0] false 2 None 0 false) in
+  ok = true /\ map fst (model_calls s) = [OReply; OReply; OReply; OReply] /\ map k_px (calls s) = [0; 1; 0; 1]%nat /\
+  queueLen s 0%nat = 0%Z /\ queueLen s 1%nat = 0%Z /\ invokeNum s = 0%Z /\ resp s = [].
+Proof. vm_compute. repeat split; reflexivity. Qed.
+
+(* every way a call can end is a run of the model: one reachable returned call per outcome (and per path to Error) *)
+Example outcome_paths_exist :
+  let cfg0 := mkcfg 30 40 10 1 100000 60000 in
+  let ret ls i := match run cfg0 init ls with
+                  | Some s => match nth_error (calls s) i with Some k => match k_pc k with Returned => k_out k | _ => None end | None => None end
+                  | None => None end in
+  ret [Start 20 false 0%nat; LPre 0; LCount 0; LReg 0; LLock 0; LDialOk 0; LEnq 0; LSendTake; LPeerPkt 1 7; LLookup 0; LDeliver 0; LUncount 0; LClean 0; LPost 0] 0%nat = Some (Reply 7) /\
+  ret ([Start 20 false 0%nat; LPre 0; LCount 0; LReg 0; LLock 0; LDialOk 0; LEnq 0] ++ ticks 20 ++ [LCtxFire 0; LUncount 0; LClean 0; LPost 0]) 0%nat = Some Timeout /\
+  ret [Start 20 false 0%nat; LPre 0; LCount 0; LReg 0; LLock 0; LDialOk 0; LEnq 0; LCancel 0; LUncount 0; LClean 0; LPost 0] 0%nat = Some Cancelled /\
+  ret [Start 20 false 0%nat; LPre 0; LCount 0; LReg 0; LLock 0; LDialFail 0; LUncount 0; LClean 0; LPost 0] 0%nat = Some Error /\
+  ret ([Start 20 false 0%nat; LPre 0; LCount 0; LReg 0; LLock 0] ++ ticks 30 ++ [LDialTimeout 0; LUncount 0; LClean 0; LPost 0]) 0%nat = Some Error /\
+  ret ([Start 20 false 0%nat; Start 20 false 0%nat; LPre 0; LCount 0; LReg 0; LLock 0; LDialOk 0; LEnq 0; LPre 1; LCount 1; LReg 1; LLock 1] ++ ticks 20 ++
+       [LCtxFire 0; LUncount 0; LClean 0; LPost 0] ++ ticks 20 ++ [LEnqTimeout 1; LUncount 1; LClean 1; LPost 1]) 1%nat = Some Error /\
+  ret [Start 20 false 0%nat; LPre 0; LFilterErr 0; LPost 0] 0%nat = Some Error /\
+  ret [Start 20 true 0%nat; LPre 0; LCount 0; LReg 0; LLock 0; LDialOk 0; LEnq 0; LUncount 0; LClean 0; LPost 0] 0%nat = Some Sent.
+Proof. vm_compute. repeat split; reflexivity. Qed.
+
+(* ---- the effective timeout: the caller's deadline wins, then the per-call timeout, then the proxy's; a configured
+   timeout of zero or below is a deadline that has passed ---- *)
+Theorem eff_caller_deadline_wins : forall p pc d, eff_of (mktmo p pc (Some d)) = d.
+Proof. reflexivity. Qed.
+Theorem eff_percall_over_proxy : forall p q, eff_of (mktmo p (Some q) None) = Z.to_N q.
+Proof. reflexivity. Qed.
+Theorem eff_proxy_default : forall p, eff_of (mktmo p None None) = Z.to_N p.
+Proof. reflexivity. Qed.
+Theorem eff_nonpositive_expired : forall t, t_ctx t = None -> (configured t <= 0)%Z -> eff_of t = 0.
+Proof. intros [p pc cx] H Hc. cbn in *. subst cx. unfold eff_of. cbn. lia. Qed.
+(* a call started with an expired deadline and a silent peer returns the timeout error at the instant it started *)
+Example zero_timeout_returns_at_once :
+  let '(s, _, ok) := canonical (mkscen (mkcfg 30 40 10 4 100000 60000) CAccept [mkact false None false false] 1 2 (mktmo (-5) None None) [1] false 0 None 0 false) in
+  ok = true /\ model_calls s = [(OTimeout, 0); (OTimeout, 0)] /\ queueLen s 0%nat = 0%Z /\ invokeNum s = 0%Z /\ resp s = [].
+Proof. vm_compute. repeat split; reflexivity. Qed.
+Example cancelled_call_returns_at_once :
+  let '(s, _, ok) := canonical (mkscen (mkcfg 30 40 10 4 100000 60000) CAccept [mkact false None false false] 1 1 (mktmo 30 None None) [0] false 0 (Some 8) 0 false) in
+  ok = true /\ model_calls s = [(OTimeout, 8)] /\ queueLen s 0%nat = 0%Z /\ invokeNum s = 0%Z /\ resp s = [].
+Proof. vm_compute. repeat split; reflexivity. Qed.
+Example rejected_calls_leave_nothing :
+  let '(s, _, ok) := canonical (mkscen (mkcfg 30 40 10 4 100000 60000) CAccept [mkact false (Some 0) false false] 1 4 (mktmo 30 None None) [1] false 0 None 2 false) in
+  ok = true /\ map fst (model_calls s) = [OReply; OError; OReply; OError] /\ queueLen s 0%nat = 0%Z /\ invokeNum s = 0%Z /\ resp s = [].
+Proof. vm_compute. repeat split; reflexivity. Qed.
+
 (* ---- non-vacuity: concrete reachable runs ---- *)
 Example silent_peer_times_out :
-  let '(s, _, ok) := canonical (mkscen (mkcfg 30 40 10 4 100000 60000) CAccept [mkact false None false false] 1 1 20 [0] false false) in
-  ok = true /\ model_calls s = [(OTimeout, 20)] /\ queueLen s = 0%Z /\ invokeNum s = 0%Z /\ resp s = [].
+  let '(s, _, ok) := canonical (mkscen (mkcfg 30 40 10 4 100000 60000) CAccept [mkact false None false false] 1 1 (mktmo 20 None None) [0] false 0 None 0 false) in
+  ok = true /\ model_calls s = [(OTimeout, 20)] /\ queueLen s 0%nat = 0%Z /\ invokeNum s = 0%Z /\ resp s = [].
 Proof. vm_compute. repeat split; reflexivity. Qed.
 
 Example late_then_fast_replies :
-  let '(s, _, ok) := canonical (mkscen (mkcfg 30 40 10 4 100000 60000) CAccept [mkact false (Some 30) false false; mkact false (Some 0) false false] 1 2 20 [1] false false) in
-  ok = true /\ model_calls s = [(OTimeout, 20); (OReply, 0)] /\ queueLen s = 0%Z /\ invokeNum s = 0%Z /\ resp s = [].
+  let '(s, _, ok) := canonical (mkscen (mkcfg 30 40 10 4 100000 60000) CAccept [mkact false (Some 30) false false; mkact false (Some 0) false false] 1 2 (mktmo 20 None None) [1] false 0 None 0 false) in
+  ok = true /\ model_calls s = [(OTimeout, 20); (OReply, 0)] /\ queueLen s 0%nat = 0%Z /\ invokeNum s = 0%Z /\ resp s = [].
 Proof. vm_compute. repeat split; reflexivity. Qed.
 
 Example one_way_returns_at_once :
-  let '(s, _, ok) := canonical (mkscen (mkcfg 30 40 10 4 100000 60000) CAccept [mkact false None false false] 1 2 20 [1] true false) in
-  ok = true /\ model_calls s = [(OSent, 0); (OSent, 0)] /\ queueLen s = 0%Z /\ invokeNum s = 0%Z /\ resp s = [].
+  let '(s, _, ok) := canonical (mkscen (mkcfg 30 40 10 4 100000 60000) CAccept [mkact false None false false] 1 2 (mktmo 20 None None) [1] true 0 None 0 false) in
+  ok = true /\ model_calls s = [(OSent, 0); (OSent, 0)] /\ queueLen s 0%nat = 0%Z /\ invokeNum s = 0%Z /\ resp s = [].
 Proof. vm_compute. repeat split; reflexivity. Qed.
 
 Example stalled_three_callers :
-  let '(s, _, ok) := canonical (mkscen (mkcfg 30 40 10 4 100000 60000) CStall [mkact false None false false] 3 1 10 [0] false false) in
+  let '(s, _, ok) := canonical (mkscen (mkcfg 30 40 10 4 100000 60000) CStall [mkact false None false false] 3 1 (mktmo 10 None None) [0] false 0 None 0 false) in
   ok = true /\ model_calls s = [(OError, 30); (OError, 60); (OError, 90)].
 Proof. vm_compute. repeat split; reflexivity. Qed.
